@@ -405,6 +405,43 @@ def check_fresh(b, mi, res: Result, w):
         res.violation("fresh", ["read-raised:" + type(e).__name__, "-"], f"{mi.full_name}: reading fields of a fresh message: {e!r}", w)
     if cls.FromString(b"") != cls() or bytes(cls().parse(b"")) != b"":
         res.violation("fresh", ["parse-empty-differs"], f"{mi.full_name}: parse(b'') differs from a fresh message", w)
+    # "something was assigned inside it": assigning a value -- the type's DEFAULT value included -- to a field of a plain
+    # sub-message makes the sub-message present, whether or not that field (or the whole message) was READ before; the two
+    # orders must give the same bytes and the same flag (read-then-assign vs assign on a never-read object)
+    for fi in mi.fields:
+        if not (fi.label == "singular" and fi.kind == "message" and fi.wkt is None):
+            continue
+        sub_mi = b.msgs[fi.type_name]
+        sub_names = attr_names(b.bp_class(sub_mi.full_name))
+        for f2 in sub_mi.fields:
+            if f2.label != "singular" or f2.kind in ("message",) or f2.wkt:
+                continue
+            dv = py_default(b, f2)
+            if dv == "MESSAGE":
+                continue
+            for readers in ("read-leaf", "read-all-deep", "bytes", "to_dict"):
+                res.counters["assign_default_after_read"] += 1
+                try:
+                    plain, seen = cls(), cls()
+                    setattr(getattr(plain, names[fi.number]), sub_names[f2.number], dv)
+                    if readers == "read-leaf":
+                        getattr(getattr(seen, names[fi.number]), sub_names[f2.number])
+                    elif readers == "read-all-deep":
+                        _read_deep(seen, 2)
+                    elif readers == "bytes":
+                        bytes(seen), bytes(getattr(seen, names[fi.number]))
+                    else:
+                        seen.to_dict(), getattr(seen, names[fi.number]).to_dict()
+                    setattr(getattr(seen, names[fi.number]), sub_names[f2.number], dv)
+                    a = (bytes(plain), bool(betterproto.serialized_on_wire(getattr(plain, names[fi.number]))))
+                    c = (bytes(seen), bool(betterproto.serialized_on_wire(getattr(seen, names[fi.number]))))
+                except Exception as e:
+                    res.violation("assigned-inside", ["default-after-read", readers, "raised:" + type(e).__name__], f"{mi.full_name}.{fi.name}.{f2.name}: {e!r}", w)
+                    continue
+                if a != c or not c[1]:
+                    res.violation("assigned-inside", ["default-after-read", readers, f2.kind, "differs-from-assignment-without-read" if a != c else "not-present"],
+                                  f"{mi.full_name}.{fi.name}.{f2.name} = {dv!r}: never read before: bytes {a[0].hex()} present={a[1]}; after {readers}: bytes {c[0].hex()} present={c[1]}", w)
+            break  # one leaf per sub-message field is enough
 
 
 def _read_deep(m, depth):
